@@ -59,7 +59,57 @@ def _decode(s):
     return s
 
 
+class DstTz(datetime.tzinfo):
+    """A zone whose offset depends on the date, with the repeated hour told apart by ``fold`` (PEP 495) - what zoneinfo gives a caller.
+    Rule: daylight time from the second Sunday of March 02:00 to the first Sunday of November 02:00 (local), shifting by ``shift`` minutes."""
+
+    def __init__(self, std_minutes, shift, names):
+        self.std, self.shift, self.names = datetime.timedelta(minutes=std_minutes), datetime.timedelta(minutes=shift), tuple(names)
+
+    def __getinitargs__(self):  # copy / pickle support (as zoneinfo has)
+        return (self.std // datetime.timedelta(minutes=1), self.shift // datetime.timedelta(minutes=1), self.names)
+
+    def __repr__(self):
+        return f"DstTz{self.__getinitargs__()}"
+
+    @staticmethod
+    def _nth_sunday(year, month, n):
+        d = datetime.datetime(year, month, 1, 2)
+        d += datetime.timedelta(days=(6 - d.weekday()) % 7 + 7 * (n - 1))
+        return d
+
+    def _is_dst(self, dt):
+        if dt is None:
+            return False  # asked on behalf of a datetime.time: the standard offset
+        naive = dt.replace(tzinfo=None, fold=0)
+        start, end = self._nth_sunday(dt.year, 3, 2), self._nth_sunday(dt.year, 11, 1)
+        if start + self.shift <= naive < end - self.shift:
+            return True
+        if start <= naive < start + self.shift:
+            return True  # the skipped hour: counted as daylight time
+        if end - self.shift <= naive < end:
+            return dt.fold == 0  # the repeated hour: first pass daylight, second pass standard
+        return False
+
+    def utcoffset(self, dt):
+        return self.std + (self.shift if self._is_dst(dt) else datetime.timedelta(0))
+
+    def dst(self, dt):
+        return self.shift if self._is_dst(dt) else datetime.timedelta(0)
+
+    def tzname(self, dt):
+        return self.names[1 if self._is_dst(dt) else 0]
+
+    def transitions(self, year):
+        return self._nth_sunday(year, 3, 2), self._nth_sunday(year, 11, 1)
+
+
+DST_ZONES = [(-300, 60, ("EST", "EDT")), (630, 30, ("LHST", "LHDT")), (60, 60, ("CET", "CEST")), (-210, 60, ("NST", "NDT"))]
+
+
 def gen_tz(rng):
+    if rng.random() < 0.1:
+        return DstTz(*rng.choice(DST_ZONES))
     off = rng.choice([0, 0, 60 * rng.randint(-12, 14), rng.randint(-12 * 60, 14 * 60), -rng.randint(1, 59), rng.randint(1, 59)])
     off = max(-12 * 60, min(14 * 60, off))
     if rng.random() < 0.15:
@@ -77,13 +127,24 @@ def gen_datetime(rng):
         month, day = 12, 31
     us = rng.choice([0, 0, 1000 * rng.randint(0, 999), rng.randint(0, 999999), 999499, 999500, 999999, 500, 499])
     h, mi, s = rng.choice([(0, 0, 0), (23, 59, 59), (rng.randint(0, 23), rng.randint(0, 59), rng.randint(0, 59))])
-    return datetime.datetime(year, month, day, h, mi, s, us, tzinfo=gen_tz(rng))
+    tz = gen_tz(rng)
+    if isinstance(tz, DstTz):
+        # half of them inside the hour that occurs twice when daylight time ends, told apart by fold
+        if rng.random() < 0.5:
+            end = tz.transitions(year)[1]
+            at = end - tz.shift + datetime.timedelta(seconds=rng.randint(0, int(tz.shift.total_seconds()) - 1), microseconds=us)
+            return at.replace(tzinfo=tz, fold=rng.choice([0, 1]))
+        return datetime.datetime(year, month, day, h, mi, s, us, tzinfo=tz, fold=rng.choice([0, 1]))
+    return datetime.datetime(year, month, day, h, mi, s, us, tzinfo=tz)
 
 
 def gen_time(rng):
     us = rng.choice([0, 1000 * rng.randint(0, 999), rng.randint(0, 999999), 999500])
     h, mi, s = rng.choice([(0, 0, 0), (23, 59, 59), (rng.randint(0, 23), rng.randint(0, 59), rng.randint(0, 59))])
-    return datetime.time(h, mi, s, us, tzinfo=gen_tz(rng))
+    tz = gen_tz(rng)
+    while isinstance(tz, DstTz):  # a time of day carries no date for the rule to look at
+        tz = gen_tz(rng)
+    return datetime.time(h, mi, s, us, tzinfo=tz)
 
 
 def gen_decimal(rng, quantum):
